@@ -676,7 +676,7 @@ func (req *Request) buildDistributedRequestData(subBackends []string) (requestDa
 	}
 
 	// Get hash with metadata in addition to table rows
-	requestData["outputformat"] = OutputFormatWrappedJSON
+	requestData["outputformat"] = "wrapped_json"
 
 	return requestData
 }
